@@ -29,7 +29,9 @@ def _nxt(fn, nf, f, j, n_max):
 
 
 def make(oid, n_face, n_max, n_node, order="A", sizes=None, fixed=None, tiers=("quick", "thorough"), unique_mode="relational",
-         part=None, cost=1, title=None):
+         part=None, cost=1, title=None, forder=False):
+    """forder: the caller's face-node table is column-major in memory (np.asfortranarray) - same values, different view/copy
+    behaviour of numpy downstream"""
     lon, lat = C.default_lonlat(n_node)
 
     def setup(ctx):
@@ -42,7 +44,9 @@ def make(oid, n_face, n_max, n_node, order="A", sizes=None, fixed=None, tiers=("
         fn, nf = inp
         symnp.UNIQUE_MODE[0] = unique_mode
         symnp.CAP[0] = n_face * n_max
-        g = C.clone_grid(C.sarr_int(fn), lon, lat)
+        arr = C.sarr_int(fn)
+        arr.forder = forder
+        g = C.clone_grid(arr, lon, lat)
         got = {}
         for name in ORDERS[order]:
             got[name] = getattr(g, name)
@@ -85,7 +89,9 @@ def make(oid, n_face, n_max, n_node, order="A", sizes=None, fixed=None, tiers=("
 
     def replay(vals):
         rows = C.model_table(vals)
-        g = C.real_grid(rows, lon, lat)
+        g = C.real_grid(np.asfortranarray(np.array(rows, dtype=np.intp)) if forder else rows, lon, lat)
+        if forder and n_face > 1:
+            assert g.face_node_connectivity.values.flags.f_contiguous
         got = {}
         for name in ORDERS[order]:
             got[name] = getattr(g, name)
@@ -232,6 +238,9 @@ def obligations(tier):
         make("C02.grid.tetra.A.faces", 4, 3, 4, "A", fixed=_tetra, part="faces", cost=9, title="tetrahedron, every numbering and start corner symbolic: face_edge rows"),
         make("C02.grid.tetra.A.rows", 4, 3, 4, "A", fixed=_tetra, part="rows", cost=9, title="tetrahedron, every numbering and start corner symbolic: edge rows"),
         make("C02.grid.tetra.A.euler", 4, 3, 4, "A", fixed=_tetra, part="euler", cost=9, title="tetrahedron, every numbering and start corner symbolic: n_node - n_edge + n_face = 2"),
+        make("C02.grid.2f3.forder", 2, 3, 4, "A", forder=True, title="edge tables, 2 triangles, caller's table column-major in memory"),
+        make("C02.grid.2f4.forder.faces", 2, 4, 6, "A", part="faces", forder=True, cost=6, tiers=("thorough",),
+             title="edge tables (face rows), 2 faces x <= 4 corners, caller's table column-major in memory"),
         make_history("C02.history.2f3", 2, 3, 4),
         make("C02.grid.2f5.A", 2, 5, 8, "A", tiers=("thorough",), cost=20),
         make("C02.grid.2f4.rank", 2, 4, 6, "A", tiers=("thorough",), unique_mode="rank", cost=20,
